@@ -472,7 +472,10 @@ func (l *layer) Verify(tocDigest digest.Digest) (err error) {
 		return fmt.Errorf("layer is already closed")
 	}
 	if l.r != nil {
-		return nil
+		// This layer object is shared through the resolver's cache and was already verified or
+		// skip-verified by an earlier mount. The digest requested now must still be checked.
+		_, err = l.verifiableReader.VerifyTOC(tocDigest)
+		return err
 	}
 	l.r, err = l.verifiableReader.VerifyTOC(tocDigest)
 	return
